@@ -32,6 +32,9 @@
 #include <string>
 #include <vector>
 
+// coverage experiments (-fprofile-instr-generate): children leave through _exit, so flush the profile explicitly
+extern "C" int __llvm_profile_write_file(void) __attribute__((weak));
+
 namespace vh {
 
 struct Shared {
@@ -366,6 +369,7 @@ inline bool run_child(const std::function<void()>& body, double timeout_s = 0) {
         }
         body();
         fflush(stdout);
+        if (__llvm_profile_write_file) __llvm_profile_write_file();
         _exit(0);
     }
     int status = 0;
